@@ -72,6 +72,8 @@ func checkC08(c *Ctx) {
 	r.Rule("C08.B2", "every rego.New passes rego.UnsafeBuiltins(deny-list) exactly once; no other policy-compiling/loading/evaluating or builtin-registering engine API is used", 2)
 	r.Rule("C08.B3", "the module text compiled by the guarded rego.New is RegoUnit.Code as produced by generator.Generate", 1)
 	r.Rule("C08.B4", "the deny-list map is only read, as the argument of rego.UnsafeBuiltins", 1)
+	// B5: a rejected profile stays rejected: nothing a compilation computed (or failed to compute) is kept for the next call
+	noCrossCallState(c, "C08.B5", "no compilation outcome survives a call in a package-level variable", "a profile that the compiler rejected can be handed out as compiled by a later call that finds the remembered entry")
 
 	// registered builtin names of the linked OPA: every &Builtin{Name: "..."} literal in package opa/ast
 	opaAst := p.AnyPkg(opaPath + "/ast")
